@@ -76,7 +76,9 @@ func (server *SugarDB) raftApplyCommand(ctx context.Context, cmd []string) ([]by
 		ConnectionID: connectionId,
 		Protocol:     protocol,
 		Database:     database,
-		CMD:          cmd,
+		// Every node runs the entry's handler against its own clock: a relative expiry is replicated
+		// as the absolute time it denotes on the leader now.
+		CMD: internal.AbsoluteExpiryForm(cmd, server.clock.Now()),
 	}
 
 	b, err := json.Marshal(applyRequest)
